@@ -185,7 +185,7 @@ class LenKind(AbsInt):
 
     def name(self, node, fr):
         v = super().name(node, fr)
-        if v is TOP or v is BOT:
+        if v is TOP or v is BOT or (isinstance(v, Tup) and not v.elems):
             # list filled by exactly one append per iteration of `for _ in range(n)`
             acc = self._append_loop(node.id, node, fr)
             if acc is not None:
